@@ -103,10 +103,11 @@ theorem C10_pinned_child_executor_witness :
 
 /-! ## (b) inputs are frozen while the node is out -/
 
-/-- The statement: an assignment to an input of a node that is out on an executor is refused. -/
+/-- The statement: whatever is attempted on the inputs of a node that is out on an executor — own inputs, or
+for a workflow the child inputs its panel exposes — leaves the node as it was at submission. -/
 def FrozenStatement : Prop :=
-  ∀ (s : Sess) (k : Nat) (v : Val), s.node.own.running = true → s.job.isSome = true →
-    (edit s (.setIn k v)).2 = .locked
+  ∀ (s : Sess) (es : List Edit), s.node.own.running = true → s.job.isSome = true →
+    (edits s es).node = s.node
 
 /-- nodes whose input channels they own themselves and whose channels point back at them -/
 def LockOwner (n : Node) : Prop := n.kind? ≠ some .wf ∧ n.own.ioMine = true
@@ -124,8 +125,9 @@ theorem C10_frozen_partial (s : Sess) (k : Nat) (v : Val) (hl : LockOwner s.node
 children are idle). True of the pinned and of the repaired code. -/
 theorem C10_workflow_not_frozen_witness : ¬ FrozenStatement := by
   intro h
-  have := h ((submit true ⟨Ex.wfA .macro .none |>.setOwn { (Ex.wfA .macro .none).own with exe := .inst true },
-    none, []⟩).1) 0 (Ex.c 9) (by decide) (by decide)
+  have := h ((submit true ⟨(Ex.wfA .macro .none).setOwn { (Ex.wfA .macro .none).own with exe := .inst true },
+    none, []⟩).1) [.setKid 0 0 (Ex.c 9)] (by decide) (by decide)
+  have := congrArg (fun n => n.kids.map fun k => k.own.ins) this
   revert this
   decide
 
